@@ -24,6 +24,8 @@ HERE = os.path.dirname(os.path.abspath(__file__))
 sys.path.insert(0, HERE)
 import c06lib as L  # noqa: E402
 import oddroots  # noqa: E402
+import nonfresh  # noqa: E402
+import roottie  # noqa: E402
 from c06lib import T  # noqa: E402
 
 LEVEL = "proof"
@@ -444,14 +446,18 @@ def run(ctx):
                     "strace (-f -xx -e trace=%file) and the Linux kernel's path resolution inside a chroot jail",
                     "coq/C06/FsModel.v: the POSIX model (byte-exact names, no hard links/mount points/races); its answers are "
                     "compared with the kernel on every case (number of successful calls, final content of R)"]
-    ctx.assumptions += ["R contains no symbolic link before the run (a link planted by an earlier run + mkdir's EEXIST tolerance is a "
-                        "two-image attack outside the property's quantifier; the generator never plants one)",
+    ctx.assumptions += ["R may be non-fresh (files, directories, symbolic links left by earlier runs): the assumption 'no symbolic link in R' "
+                        "of unpack_confined is replaced by the characterisation unpack_nonfresh_characterised / "
+                        "no_write_through_preexisting_link (theorems; evaluated model-free by props/C06/nonfresh.py): the outside can "
+                        "change only through a symbolic link that existed before the run exactly where the run makes a directory "
+                        "(mkdir's EEXIST tolerance; such pairs are run, counted and not reported)",
                         "the file system below R compares names byte for byte (no case folding / Unicode normalisation)",
                         "no concurrent modification of R while the tool runs",
-                        "R (the --unpack-root argument) itself is trusted input; mkdir_p(R)/chdir(R) happen before the modelled calls and are "
-                        "outside the Coq model: that the tool is IN R (or has failed) when the modelled calls start is checked by the "
-                        "search oracle on the class 'odd unpack roots' (props/C06/oddroots.py), not proved; a race that replaces R "
-                        "between mkdir_p and chdir is not exercised"]
+                        "R (the --unpack-root argument) itself is trusted input; mkdir_p(R)/chdir(R) are modelled (RootsModel.v, theorems "
+                        "unpack_root_chdir_fails / unpack_root_started / unpack_root_handling: no pass runs unless chdir succeeded, the passes "
+                        "run in the physical directory chdir reached) and tied on the shapes of props/C06/oddroots.py the world model can "
+                        "express (props/C06/roottie.py); permission failures and ENAMETOOLONG stay oracle-only (oddroots.py); a race that "
+                        "replaces R between mkdir_p and chdir is not exercised"]
     if os.geteuid() != 0:
         ctx.violation("machinery-not-root", "C06 check needs root (chroot jail, mknod, chown)", dict(kind="machinery"), no_input=True)
         return
@@ -464,6 +470,11 @@ def run(ctx):
             # replay of a case of the class "odd unpack roots" (props/C06/oddroots.py)
             ctx.coverage["rule"] = "replay of %s" % ctx.replay
             ctx.coverage["evaluations"] = oddroots.run(ctx, factory, work, only=rj["oddroots"])
+            return
+        if rj.get("nonfresh"):
+            # replay of a (first image / hand-made content, second image) pair of the class "non-fresh roots" (props/C06/nonfresh.py)
+            ctx.coverage["rule"] = "replay of %s" % ctx.replay
+            ctx.coverage["evaluations"] = nonfresh.run(ctx, factory, work, only=rj["nonfresh"])
             return
     cases, rule = gen_cases(ctx)
     ctx.coverage["rule"] = rule
@@ -488,6 +499,12 @@ def run(ctx):
         # class "odd unpack roots": R is a regular file, a dangling/looping link, a link to another directory, not
         # searchable/writable (unprivileged run), has missing parents, odd spellings, very long (oracle only)
         ctx.coverage["evaluations"] += oddroots.run(ctx, factory, work)
+        # class "non-fresh roots": R pre-populated by really unpacking a first image / by hand with links, files, directories at
+        # the names a second image uses; oracle = the characterisation of unpack_nonfresh_characterised, model-free
+        ctx.coverage["evaluations"] += nonfresh.run(ctx, factory, work)
+        # tie of the unpack-root model (RootsModel.v: mkdir_p_calls, chdir, main_unpack) to mkdir_p.c / main()
+        drv2 = core.build_model_driver("C06roots", "ExtractC06Roots.v", os.path.join(HERE, "roots_driver.ml"))
+        ctx.coverage["evaluations"] += roottie.run(ctx, factory, work, drv2, mkdir_p_expected, RFORMS)
     if ctx.tier == "thorough" and not ctx.replay:
         rc, out = core.sh(["timeout", "900", "coqchk", "-silent", "-o", "-Q", ".", "SqfsV", "SqfsV.Properties_C06"], cwd=core.COQ)
         ok = rc == 0 and "Axioms: <none>" in out
@@ -611,3 +628,4 @@ def evaluate(ctx, cases, mlines, mouts, results, factory):
 
 def setup():
     core.build_model_driver("C06", "ExtractC06.v", os.path.join(HERE, "driver.ml"))
+    core.build_model_driver("C06roots", "ExtractC06Roots.v", os.path.join(HERE, "roots_driver.ml"))
